@@ -50,6 +50,9 @@ type Plan struct {
 	Seed      uint64             `json:"seed"`
 	Rates     Rates              `json:"rates"`
 	Overrides map[string]Outcome `json:"overrides,omitempty"`
+	// ExtraDelay adds microseconds of sleep to the invocation at a path, whatever its outcome
+	// (adversarial completion orders for C06).
+	ExtraDelay map[string]int `json:"extraDelay,omitempty"`
 }
 
 // V is the value a resolver returned, down to object boundaries.
@@ -192,6 +195,7 @@ func (u *U) Bind(stub any, directives any, complexity any) {
 func (s *State) decide(path string, salt string) (Outcome, uint64) {
 	h := fnv(s.Plan.Seed, path+salt)
 	if o, ok := s.Plan.Overrides[path+salt]; ok {
+		o.Delay += s.Plan.ExtraDelay[path+salt]
 		return o, h
 	}
 	r := s.Plan.Rates
@@ -213,6 +217,7 @@ func (s *State) decide(path string, salt string) (Outcome, uint64) {
 		o.Delay = int((h >> 32) % uint64(r.MaxDelay))
 		o.Yield = int((h >> 40) % 4)
 	}
+	o.Delay += s.Plan.ExtraDelay[path+salt]
 	return o, h
 }
 
